@@ -530,11 +530,12 @@ def handle_states(fn, fields, obj=OBJ, init=None, alias=None, depth=0):
         if node.kind != "cond" or lab not in ("T", "F") or node.ast is None:
             return st
         e = node.ast.strip()
-        if e.kind == "BinaryOperator" and e.opcode == "<" and e.children[1].intval() == 0:
+        if e.kind == "BinaryOperator" and e.opcode in ("<", ">=") and e.children[1].intval() == 0:
             f = field_of(e.children[0])
             if f:
                 st = dict(st)
-                st[f] = INVALID if lab == "T" else (NZ if st.get(f, TOP) == TOP else st.get(f))
+                failed = lab == ("T" if e.opcode == "<" else "F")      # `f < 0` true, or `f >= 0` false: the create failed
+                st[f] = INVALID if failed else (NZ if st.get(f, TOP) == TOP else st.get(f))
             return st
         f = None
         truth_nonzero = None
